@@ -648,6 +648,12 @@ impl CanonicalRequest {
     pub open spec fn carrier_timestamp(&self) -> Seq<char> {
         if self.hview().contains_key(H_AUTHORIZATION()) { latin1(self.header_date()->Some_0) } else { latin1(self.first_query_decoded(Q_DATE())) }
     }
+    pub proof fn lemma_selected_carrier_fine(&self, p: AuthParams)
+        requires self.carrier_selected(p)
+        ensures
+            (self.hview().contains_key(H_AUTHORIZATION()) && !self.qview().contains_key(Q_ALGORITHM()) && !self.header_carrier_fails(self.first_auth_header()))
+            || (!self.hview().contains_key(H_AUTHORIZATION()) && self.qview().contains_key(Q_ALGORITHM()) && self.first_query_alg() == ALGO() && !self.query_carrier_missing())
+    {}
     pub proof fn lemma_selected_timestamp(&self, p: AuthParams)
         requires self.carrier_selected(p)
         ensures p.timestamp_str@ == self.carrier_timestamp()
@@ -657,6 +663,18 @@ impl CanonicalRequest {
         self.acceptable_params(always, ifreq, prefixes) && iso_instant(str_bytes(self.carrier_timestamp())) is Some
     }
 
+    /// C13 (rules 5-9 in order): which kind a refusal by get_authenticator has, whatever else is wrong with the request later on
+    pub open spec fn rules_5_to_9_verdict(&self, always: Seq<Seq<u8>>, ifreq: Seq<Seq<u8>>, prefixes: Seq<Seq<u8>>, e: SignatureError) -> bool {
+        let ha = self.hview().contains_key(H_AUTHORIZATION());
+        let qa = self.qview().contains_key(Q_ALGORITHM());
+        &&& (ha && qa ==> e is SignatureDoesNotMatch)
+        &&& (!ha && !qa ==> e is MissingAuthenticationToken)
+        &&& (ha && !qa && self.header_carrier_fails(self.first_auth_header()) ==> e is IncompleteSignature)
+        &&& (!ha && qa && self.first_query_alg() != ALGO() ==> e is MissingAuthenticationToken)
+        &&& (!ha && qa && self.first_query_alg() == ALGO() && self.query_carrier_missing() ==> e is IncompleteSignature)
+        &&& ((exists|p: AuthParams| self.carrier_selected(p)) && !self.acceptable_params(always, ifreq, prefixes) ==> e is SignatureDoesNotMatch)
+        &&& (self.acceptable_params(always, ifreq, prefixes) ==> e is IncompleteSignature)
+    }
 //@ fn canonical.rs impl CanonicalRequest :: get_authenticator
 //@ hideutf8
 //@ props C08 C01 C05 C13 C16 C19 C17
@@ -673,10 +691,33 @@ impl CanonicalRequest {
         r is Err ==> (r->Err_0 is SignatureDoesNotMatch || r->Err_0 is MissingAuthenticationToken || r->Err_0 is IncompleteSignature), //# C13 name=rules_5_to_9_error_kinds
         self.acceptable_authenticator(signed_header_requirements.always_spec(), signed_header_requirements.if_in_request_spec(),
             signed_header_requirements.prefixes_spec()) ==> r is Ok, //# C02 name=request_passing_rules_5_to_9_gets_an_authenticator
+        self.hview().contains_key(H_AUTHORIZATION()) && self.qview().contains_key(Q_ALGORITHM())
+            ==> r is Err && r->Err_0 is SignatureDoesNotMatch, //# C13 C19 name=rule_5_both_carriers_wins_over_later_defects
+        !self.hview().contains_key(H_AUTHORIZATION()) && !self.qview().contains_key(Q_ALGORITHM())
+            ==> r is Err && r->Err_0 is MissingAuthenticationToken, //# C13 name=rule_5_no_carrier_wins_over_later_defects
+        self.hview().contains_key(H_AUTHORIZATION()) && !self.qview().contains_key(Q_ALGORITHM()) && self.header_carrier_fails(self.first_auth_header())
+            ==> r is Err && r->Err_0 is IncompleteSignature, //# C13 name=rule_6_header_syntax_wins_over_requirements_and_date
+        !self.hview().contains_key(H_AUTHORIZATION()) && self.qview().contains_key(Q_ALGORITHM()) && self.first_query_alg() != ALGO()
+            ==> r is Err && r->Err_0 is MissingAuthenticationToken, //# C13 name=rule_7a_algorithm_wins_over_missing_parameters
+        !self.hview().contains_key(H_AUTHORIZATION()) && self.qview().contains_key(Q_ALGORITHM()) && self.first_query_alg() == ALGO() && self.query_carrier_missing()
+            ==> r is Err && r->Err_0 is IncompleteSignature, //# C13 name=rule_7d_missing_parameters_win_over_requirements_and_date
+        r is Err ==> self.rules_5_to_9_verdict(signed_header_requirements.always_spec(), signed_header_requirements.if_in_request_spec(),
+            signed_header_requirements.prefixes_spec(), r->Err_0), //# C13 name=refusal_kind_is_that_of_the_earliest_failing_rule_5_to_9
+        r is Ok ==> self.acceptable_authenticator(signed_header_requirements.always_spec(), signed_header_requirements.if_in_request_spec(),
+            signed_header_requirements.prefixes_spec()), //# C13 C05 name=no_authenticator_unless_rules_5_to_9_pass
+        (forall|p: AuthParams| #[trigger] self.carrier_selected(p) ==> !requirements_met(p.signed(), self.hview(), signed_header_requirements.always_spec(),
+            signed_header_requirements.if_in_request_spec(), signed_header_requirements.prefixes_spec())) && (exists|p: AuthParams| self.carrier_selected(p))
+            ==> r is Err && r->Err_0 is SignatureDoesNotMatch, //# C13 C05 name=rule_8_unsigned_required_header_wins_over_bad_date
 //@ bodystart
     hide(CanonicalRequest::carrier_selected);
     hide(requirements_met);
     hide(CanonicalRequest::is_creq);
+    proof {
+        if exists|p: AuthParams| self.carrier_selected(p) {
+            let p = choose|p: AuthParams| self.carrier_selected(p);
+            self.lemma_selected_carrier_fine(p);
+        }
+    }
 //@ before 1 `self.get_authenticator_from_auth_parameters(auth_params)`
     let ghost p0 = auth_params;
     proof { self.lemma_carrier_selected_builder(auth_params); self.lemma_selected_timestamp(auth_params); }
